@@ -146,6 +146,9 @@ theorem step_ok (hk : KindOK kind cmp Good) (h : LawfulCmp cmp) (eqVal : V → V
     simp only [Spec.admits, abs, rangeSize, get_eq h _ i1.1, rank_eq h _ i1]
     rw [← rangeSize_spec h lo hi i1.1]
   | all => exact ⟨(s1, s2), _, rfl, ⟨g1, g2⟩, rfl, by simp [Spec.admits, abs, all_eq]⟩
+  | allUntil limit =>
+    exact ⟨(s1, s2), _, rfl, ⟨g1, g2⟩, rfl, by simp [Spec.admits, abs, allUntil_eq]⟩
+  | equalOther => exact ⟨(s1, s2), _, rfl, ⟨g1, g2⟩, rfl, rfl⟩
   | traverse o limit =>
     refine ⟨(s1, s2), _, rfl, ⟨g1, g2⟩, rfl, ?_⟩
     cases o
